@@ -216,26 +216,32 @@ class HTMLConverter(HTMLScraper, BaseDocumentConverter):
     def _convert_plain(self, link_info):
         base_url = self._base_url
 
-        if link_info.base_link:
-            if self._base_url:
-                base_url = wpull.url.urljoin(
-                    self._base_url, link_info.base_link
-                )
+        try:
+            if link_info.base_link:
+                if self._base_url:
+                    base_url = wpull.url.urljoin(
+                        self._base_url, link_info.base_link
+                    )
+                else:
+                    base_url = link_info.base_link
+
+            if base_url:
+                url = wpull.url.urljoin(base_url, link_info.link)
             else:
-                base_url = link_info.base_link
+                url = link_info.link
 
-        if base_url:
-            url = wpull.url.urljoin(base_url, link_info.link)
-        else:
-            url = link_info.link
+            url_info = URLInfo.parse(url, encoding=self._encoding)
+        except ValueError:
+            # A link that is not a URL is left as it is.
+            return
 
-        url_info = URLInfo.parse(url, encoding=self._encoding)
         new_url = self._get_new_url(url_info)
 
         return new_url
 
     def _convert_css_attrib(self, link_info):
-        done_key = (link_info.element, link_info.attrib)
+        # Elements hold their attributes in a dict and are not hashable.
+        done_key = (id(link_info.element), link_info.attrib)
 
         if done_key in self._css_already_done:
             return
@@ -252,7 +258,7 @@ class HTMLConverter(HTMLScraper, BaseDocumentConverter):
         return new_value
 
     def _convert_css_text(self, link_info):
-        if link_info.element in self._css_already_done:
+        if id(link_info.element) in self._css_already_done:
             return
 
         text = wpull.string.to_str(link_info.element.text)
